@@ -43,7 +43,8 @@ OptSeqs == << <<>>, <<"NoID">>, <<"NoMeta">>, <<"NoRM">>, <<"IIP">>,
               <<"NoID", "NoRM", "IIP">>, <<"NoMeta", "NoRM", "IIP">>, <<"NoID", "NoMeta", "NoRM", "IIP">> >>
 OptSets == {ToSet(OptSeqs[i]) : i \in DOMAIN OptSeqs}
 
-\* tag.go: UninterestingTags (transcribed once)
+\* the documented list of uninteresting tags (osmtogeojson README / index.js "uninterestingTags", which tag.go
+\* mirrors): pinned here, not read from the library
 Unint == {"source", "source_ref", "source:ref", "history", "attribution", "created_by",
           "tiger:county", "tiger:tlid", "tiger:upload_uuid"}
 
@@ -173,6 +174,8 @@ KeyOf(ds, t, id) == IF ds.ids[t] = "neg" THEN <<"neg", id>> ELSE <<t, id>>
 \* the same data set with ids that fit.
 Ideal(ds) == [ds EXCEPT !.ids = SmallIds]
 
+\* a membership entry of the marshalled GeoJSON has exactly these keys (an empty role is still a role)
+MembershipKeys == <<"id", "role", "tags">>
 \* ---- membership map (convert.go:59-90)
 Flat(ds) == FlattenSeq([i \in DOMAIN ds.rels |->
                           [j \in DOMAIN ds.rels[i].members |-> <<ds.rels[i], ds.rels[i].members[j]>>]])
@@ -180,7 +183,7 @@ Memberships(ds, O, t, id) ==
   LET sel == SelectSeq(Flat(ds), LAMBDA p : /\ KeyOf(ds, p[2].t, p[2].ref) = KeyOf(ds, t, id)
                                             /\ ("NoRM" \in O => p[2].t = "node")
                                             /\ (p[2].t = "way" => HasWay(ds, p[2].ref)))
-  IN [k \in DOMAIN sel |-> [id |-> sel[k][1].id, role |-> sel[k][2].role, tags |-> sel[k][1].tags]]
+  IN [k \in DOMAIN sel |-> [id |-> sel[k][1].id, role |-> sel[k][2].role, tags |-> sel[k][1].tags, keys |-> MembershipKeys]]
 
 \* ---- feature construction + addMetaProperties (convert.go:165-183, 201-231, 303-387)
 Feat(ds, O, t, e, g, c, tags, tainted) ==
@@ -342,7 +345,7 @@ Conv(ds, O)       == ConvIdeal(ds, O)        \* the tree as it is
 (* Judge: the statement, over a feature list F for data set ds, options O  *)
 (* ======================================================================= *)
 \* equality of abstract features (tag lists are maps: compared as sets)
-RelsNorm(rels) == [k \in DOMAIN rels |-> [id |-> rels[k].id, role |-> rels[k].role, tags |-> TagSet(rels[k].tags)]]
+RelsNorm(rels) == [k \in DOMAIN rels |-> [id |-> rels[k].id, role |-> rels[k].role, tags |-> TagSet(rels[k].tags), keys |-> rels[k].keys]]
 FeatEq(a, b) ==
   /\ a.fid = b.fid /\ a.t = b.t /\ a.id = b.id /\ a.g = b.g /\ a.c = b.c
   /\ a.hastags = b.hastags /\ TagSet(a.tags) = TagSet(b.tags)
@@ -371,7 +374,7 @@ J_Carries(ds, O, F) ==
 \* statement fixes no order.
 MembershipBag(ds, t, id) ==
   LET sel == SelectSeq(Flat(ds), LAMBDA p : p[2].t = t /\ p[2].ref = id)
-  IN [k \in DOMAIN sel |-> [id |-> sel[k][1].id, role |-> sel[k][2].role, tags |-> TagSet(sel[k][1].tags)]]
+  IN [k \in DOMAIN sel |-> [id |-> sel[k][1].id, role |-> sel[k][2].role, tags |-> TagSet(sel[k][1].tags), keys |-> MembershipKeys]]
 Count(s, x) == Cardinality({k \in DOMAIN s : s[k] = x})
 BagEq(s1, s2) == Len(s1) = Len(s2) /\ \A k \in DOMAIN s1 : Count(s1, s1[k]) = Count(s2, s1[k])
 J_MetaMembership(ds, O, F) ==
